@@ -1,15 +1,21 @@
+pub mod adhoc;
 pub mod c01;
+pub mod c03;
 
 use crate::ctx::Ctx;
 
 pub fn run(ctx: &mut Ctx) -> bool {
     match ctx.prop.as_str() {
         "C01" => c01::run(ctx),
+        "C03" => c03::run(ctx),
         _ => return false,
     }
     true
 }
 
-pub fn child_main(_cmd: &str, _args: &[String]) -> i32 {
+pub fn child_main(cmd: &str, args: &[String]) -> i32 {
+    if cmd == "child-sql" {
+        return adhoc::main(args);
+    }
     64
 }
